@@ -30,6 +30,7 @@ type Variant struct {
 type Property struct {
 	ID               string
 	Title            string
+	Level            string // evidence level (default "exploration")
 	Rule             string // how cases are generated and what is non-trivial
 	Assumptions      []string
 	DeathIsViolation bool // a worker death on a journaled case counts as a violation
@@ -237,7 +238,7 @@ func libFrame(stack []byte) (bool, string) {
 		}
 		if strings.HasPrefix(l, "github.com/peterstace/simplefeatures/") {
 			fn := l
-			if j := strings.IndexByte(fn, '('); j > 0 {
+			if j := strings.LastIndexByte(fn, '('); j > 0 {
 				fn = fn[:j]
 			}
 			fn = strings.TrimPrefix(fn, "github.com/peterstace/simplefeatures/")
@@ -289,6 +290,14 @@ func (k *K) In(name string, v any) { k.inputs = append(k.inputs, kv{name, v}) }
 func (k *K) Obs(name string, v any) {
 	if k.sample || len(k.failed) > 0 {
 		k.obs = append(k.obs, kv{name, v})
+	}
+}
+
+// Mark journals a sub-step of the running case (e.g. the input about to be
+// passed to the library) so that a worker death can be attributed precisely.
+func (k *K) Mark(detail string) {
+	if k.c.journal != nil {
+		fmt.Fprintf(k.c.journal, "M %s\n", detail)
 	}
 }
 
